@@ -1482,7 +1482,9 @@ class Request:
 
         # PERF: Use if..in since it is a good all-around performer; we don't
         #       know how likely params are to be specified by clients.
-        if name in params:
+        # NOTE: An empty list means every comma-separated element was blank
+        #   and has been dropped; there is no value to return.
+        if name in params and params[name] != []:
             # NOTE(warsaw): If the key appeared multiple times, it will be
             # stored internally as a list.  We do not define which one
             # actually gets returned, but let's pick the last one for grins.
@@ -1584,7 +1586,9 @@ class Request:
 
         # PERF: Use if..in since it is a good all-around performer; we don't
         #       know how likely params are to be specified by clients.
-        if name in params:
+        # NOTE: An empty list means every comma-separated element was blank
+        #   and has been dropped; there is no value to return.
+        if name in params and params[name] != []:
             val_str = params[name]
             if isinstance(val_str, list):
                 val_str = val_str[-1]
@@ -1697,7 +1701,9 @@ class Request:
 
         # PERF: Use if..in since it is a good all-around performer; we don't
         #       know how likely params are to be specified by clients.
-        if name in params:
+        # NOTE: An empty list means every comma-separated element was blank
+        #   and has been dropped; there is no value to return.
+        if name in params and params[name] != []:
             val_str = params[name]
             if isinstance(val_str, list):
                 val_str = val_str[-1]
@@ -1805,7 +1811,9 @@ class Request:
 
         # PERF: Use if..in since it is a good all-around performer; we don't
         #       know how likely params are to be specified by clients.
-        if name in params:
+        # NOTE: An empty list means every comma-separated element was blank
+        #   and has been dropped; there is no value to return.
+        if name in params and params[name] != []:
             val_str = params[name]
             if isinstance(val_str, list):
                 val_str = val_str[-1]
@@ -1913,7 +1921,9 @@ class Request:
 
         # PERF: Use if..in since it is a good all-around performer; we don't
         #       know how likely params are to be specified by clients.
-        if name in params:
+        # NOTE: An empty list means every comma-separated element was blank
+        #   and has been dropped; there is no value to return.
+        if name in params and params[name] != []:
             val_str = params[name]
             if isinstance(val_str, list):
                 val_str = val_str[-1]
